@@ -28,7 +28,10 @@ def prep(patch):
 
 def run(args):
     name, s, pid = args
-    p = subprocess.run(['./check', pid, '--src', s, '--no-controls', '--no-evidence'], cwd='/verif', stdout=subprocess.PIPE, stderr=subprocess.STDOUT)
+    try:
+        p = subprocess.run(['./check', pid, '--src', s, '--no-controls', '--no-evidence'], cwd='/verif', stdout=subprocess.PIPE, stderr=subprocess.STDOUT, timeout=240)
+    except subprocess.TimeoutExpired:
+        return name, pid, 3, ['TIMEOUT']
     out = p.stdout.decode()
     keys = [l.strip().split(' [')[0].split(' ', 1)[-1] for l in out.splitlines() if '] ' in l and l.startswith('  ') and '[ok]' not in l]
     return name, pid, p.returncode, keys[:3]
@@ -52,7 +55,7 @@ for name in sorted(res):
     row = ''
     for pid in PIDS:
         rc = res[name][pid][0]
-        row += ' %s ' % {0: '.', 1: 'X', 2: 'B'}.get(rc, '?')
+        row += ' %s ' % {0: '.', 1: 'X', 2: 'B', 3: 'T'}.get(rc, '?')
     own = name.split('/')[0]
     tail = ('own:%s' % {0: 'MISSED', 1: 'caught', 2: 'BROKEN'}.get(res[name][own][0])) if own in res[name] else ('alarms:%d' % sum(1 for q in PIDS if res[name][q][0] != 0))
     print('%-8s%s   %s' % (name, row, tail))
